@@ -1,5 +1,7 @@
 #![allow(dead_code)]
-//! Shared helpers: PRNG, JSON-lines output, Gallina term printers.
+pub mod srcgen;
+pub mod sfnt;
+// Shared helpers: PRNG, JSON-lines output, Gallina term printers.
 use serde_json::{json, Value};
 use std::io::Write;
 
